@@ -133,7 +133,13 @@ func c07cRun(args []string) error {
 				m.Destroy()
 			}
 			var ip int
-			m, ip, err = build(c.UCG)
+			for try := 0; try < 6; try++ { // Build pings the fresh init with a 3 s deadline: retry on a loaded machine
+				m, ip, err = build(c.UCG)
+				if err == nil {
+					break
+				}
+				time.Sleep(time.Duration(try+1) * 300 * time.Millisecond)
+			}
 			if err != nil {
 				ob.Setup = "container build: " + err.Error()
 				w.Write(ob)
